@@ -62,6 +62,7 @@ def weight_is_float(tag):
 
 
 SCALARS = {"py2": 2, "py0.5": 0.5, "npint64_2": np.int64(2), "npfloat32_2": np.float32(2.0), "npfloat64_0.5": np.float64(0.5), "py4": 4}
+BIG = 65536  # a plain python int whose products leave the int16 / float16 range: the result must have been widened, not wrapped
 
 
 def scalar_is_int(tag):
@@ -128,6 +129,10 @@ class DtypeSystem(H.System):
         for s in SCALARS:
             for o in ("mul", "imul", "div", "idiv", "rmul"):
                 ops.append((o, s))
+        if m["depth"] == 0:
+            ops.append(("mul_big", "mul"))
+            ops.append(("mul_big", "imul"))
+            ops.append(("mul_big", "rmul"))
         ops.append(("normalize", False))
         ops.append(("normalize", True))
         ops.append(("merge", None))
@@ -276,6 +281,27 @@ class DtypeSystem(H.System):
                 def f():
                     o = obj
                     o /= s
+                    return o
+                res = call(f)
+        elif name == "mul_big":
+            fs = Fraction(BIG)
+            c = [x * fs for x in c]
+            e2 = [x * fs * fs for x in e2]
+            missed = [x * fs for x in missed]
+            expect_kind = "f" if cur.kind == "f" else "i"
+            terminal = True
+            if cur.kind == "f" and cur.itemsize < 8:
+                approx = True  # float16 / float32 starts: only dtype rules (the products exceed their precision / range)
+            if arg == "mul":
+                res = call(lambda: obj * BIG)
+                inplace = False
+            elif arg == "rmul":
+                res = call(lambda: BIG * obj)
+                inplace = False
+            else:
+                def f():
+                    o = obj
+                    o *= BIG
                     return o
                 res = call(f)
         elif name == "normalize":
